@@ -65,7 +65,7 @@ func TestVerifCodecBeacon(t *testing.T) {
 		case "max":
 			orig.Round = ^uint64(0)
 		}
-		ev := vlib.E{"scheme": crypto.DefaultSchemeID, "v": v, "path": x.Path, "err": "", "rest": true, "restdiff": "", "hasheq": true, "p": map[string]any{}}
+		ev := vlib.E{"scheme": crypto.DefaultSchemeID, "v": v, "path": x.Path, "over": map[string]any{"type": "none"}, "err": "", "rest": true, "restdiff": "", "hasheq": true, "p": map[string]any{}}
 		wire, err := proto.Marshal(beaconToProto(orig, "a"))
 		p2 := new(pb.BeaconPacket)
 		if err == nil {
